@@ -146,7 +146,11 @@ CONTAINER = {
     "Glyph.ImageCleared": _image_state,
 }
 
-INTERESTING = set(PAYLOAD) | set(WILL) | set(CONTAINER) | {w[0] for w in WILL.values()}
+# notifications one object posts BECAUSE another object changed (documented by the relaying class): recorded with
+# their sender and data, judged by props/c08.py `relay_oracle`
+RELAY = {"Component.BaseGlyphDataChanged", "Layer.GlyphNameChanged", "Layer.GlyphUnicodesChanged"}
+
+INTERESTING = set(PAYLOAD) | set(WILL) | set(CONTAINER) | {w[0] for w in WILL.values()} | RELAY
 
 
 class Event(object):
@@ -309,7 +313,13 @@ class World(object):
         names = sorted(layer.keys())
         if not names:
             raise Skip()
-        g = layer[names[gi % len(names)]]
+        if isinstance(gi, str):
+            # addressed by name (scripted scenarios that follow one glyph through renames and replacements)
+            if gi not in names:
+                raise Skip()
+            g = layer[gi]
+        else:
+            g = layer[names[gi % len(names)]]
         self.keep.append(g)
         return g
 
@@ -452,11 +462,22 @@ class World(object):
     # pre-state there), run the thunk.
 
     def make_contour(self, glyph, spec):
-        c = glyph.instantiateContour() if spec.get("owned") else glyph.contourClass(pointClass=glyph.pointClass)
-        if spec.get("id") is not None:
-            c.identifier = spec["id"]
-        for x, y, t in spec["points"]:
-            c.appendPoint(glyph.pointClass((x, y), segmentType=t))
+        """a contour built by the caller: free-standing (`Contour()`, its points' identifiers are checked by nobody
+        until it is handed to a glyph) or, when `owned`, created by `glyph.instantiateContour()` (identifiers are
+        registered with the glyph as they are given; a clash raises here, before the operation: skipped)"""
+        owned = spec.get("owned")
+        c = glyph.instantiateContour() if owned else glyph.contourClass(pointClass=glyph.pointClass)
+        try:
+            if spec.get("id") is not None:
+                c.identifier = spec["id"]
+            for pt in spec["points"]:
+                x, y, t = pt[:3]
+                pid = pt[3] if len(pt) > 3 else None
+                c.appendPoint(glyph.pointClass((x, y), segmentType=t, identifier=pid))
+        except AssertionError:
+            if owned:
+                raise Skip()
+            raise
         c.dirty = False
         return c
 
@@ -520,9 +541,8 @@ class World(object):
             elif tk == "glyph" and attr == "image" and v is not None:
                 v = dict(v)
             elif tk == "glyph" and attr == "name":
-                # renaming onto an existing name silently overwrites that glyph: outside the domain
-                if o.layer is not None and v in o.layer and v != o.name:
-                    raise Skip()
+                # renaming onto an existing name replaces the glyph that was filed under it (the layer lets the
+                # replaced object go, 5fa9b2d): in the domain - what refers to that NAME (components) must follow
                 if o.components:
                     self.no_components_for(v)
             elif tk == "layer" and attr == "name":
@@ -621,9 +641,25 @@ class World(object):
             if m == "insertContour":
                 c = self.make_contour(g, args[1])
                 self.keep.append(c)
+                d.update(obj=c, kind="contour")
+                if args[0] is None:         # the other spelling: appendContour(c) == insertContour(len, c)
+                    d.update(index=len(g))
+                    return (lambda: g.appendContour(c)), d
                 i = args[0] % (len(g) + 1)
-                d.update(obj=c, index=i, kind="contour")
+                d.update(index=i)
                 return (lambda: g.insertContour(i, c)), d
+            if m == "drawContour":
+                # the pen spelling: beginPath / addPoint ... / endPath builds a contour that belongs to the glyph from
+                # the start (identifiers are checked point by point) and appends it
+                spec = args[0]
+
+                def t():
+                    pen = g.getPointPen()
+                    pen.beginPath(identifier=spec.get("id"))
+                    for pt in spec["points"]:
+                        pen.addPoint((pt[0], pt[1]), segmentType=pt[2], identifier=pt[3] if len(pt) > 3 else None)
+                    pen.endPath()
+                return t, d
             if m == "removeContour":
                 cs = list(g)
                 if not cs:
@@ -641,8 +677,12 @@ class World(object):
                 if args[3] is not None:
                     c.identifier = args[3]
                 c.dirty = False
+                d.update(obj=c, kind="component")
+                if args[0] is None:
+                    d.update(index=len(g.components))
+                    return (lambda: g.appendComponent(c)), d
                 i = args[0] % (len(g.components) + 1)
-                d.update(obj=c, index=i, kind="component")
+                d.update(index=i)
                 return (lambda: g.insertComponent(i, c)), d
             if m in ("removeComponent", "decomposeComponent"):
                 cs = g.components
@@ -664,6 +704,9 @@ class World(object):
                     a = g.instantiateAnchor(a) if kind == "anchor" else g.instantiateGuideline(a)
                     d["obj"] = a
                 self.keep.append(a)
+                if args[0] is None:
+                    d["index"] = len(getattr(g, kind + "s"))
+                    return (lambda: getattr(g, "append" + kind.capitalize())(a)), d
                 i = args[0] % (len(getattr(g, kind + "s")) + 1)
                 d["index"] = i
                 return (lambda: getattr(g, m)(i, a)), d
@@ -684,8 +727,12 @@ class World(object):
                     self.no_components_for(g.name)
                 x = self.limbo[kind].pop()
                 cont = list(g) if kind == "contour" else getattr(g, kind + "s")
+                d.update(obj=x, kind=kind, method="insert" + kind.capitalize())
+                if args[1] is None:
+                    d.update(index=len(cont))
+                    return (lambda: getattr(g, "append" + kind.capitalize())(x)), d
                 i = args[1] % (len(cont) + 1)
-                d.update(obj=x, index=i, kind=kind, method="insert" + kind.capitalize())
+                d.update(index=i)
                 return (lambda: getattr(g, "insert" + kind.capitalize())(i, x)), d
             if m == "removeForeign":
                 kind = args[0]
@@ -748,6 +795,9 @@ class World(object):
                     a = o.instantiateGuideline(a)
                     d["obj"] = a
                 self.keep.append(a)
+                if args[0] is None:
+                    d["index"] = len(o.guidelines)
+                    return (lambda: o.appendGuideline(a)), d
                 i = args[0] % (len(o.guidelines) + 1)
                 d["index"] = i
                 return (lambda: o.insertGuideline(i, a)), d
@@ -763,8 +813,12 @@ class World(object):
                 if not self.limbo["fguideline"]:
                     raise Skip()
                 x = self.limbo["fguideline"].pop()
+                d.update(obj=x, kind="fguideline", method="insertGuideline")
+                if args[0] is None:
+                    d.update(index=len(o.guidelines))
+                    return (lambda: o.appendGuideline(x)), d
                 i = args[0] % (len(o.guidelines) + 1)
-                d.update(obj=x, index=i, kind="fguideline", method="insertGuideline")
+                d.update(index=i)
                 return (lambda: o.insertGuideline(i, x)), d
             if m == "removeForeignGuideline":
                 if not self.limbo["fguideline"]:
